@@ -22,6 +22,7 @@ import (
 func TestC18RpcWatcherDispatcher(t *testing.T) {
 	col := stats.Get("C18.rpc-dispatch")
 	rapid.Check(t, func(t *rapid.T) {
+		sim.CaseStart(t)
 		w := sim.NewWorld()
 		defer w.Close()
 		chain := rapid.SampledFrom([]string{"btc", "lbtc"}).Draw(t, "chain")
